@@ -880,12 +880,12 @@ pub fn specs(thorough: bool, seed: u64) -> Vec<ModuleSpec> {
     h5(&mut out, thorough);
     holes(&mut out, if thorough { 300 } else { 120 }, 7);
     if thorough {
-        holes(&mut out, 900, seed.wrapping_add(77));
+        holes(&mut out, 1800, seed.wrapping_add(77));
     }
     // the quick tier's random extension is pinned; the thorough one follows VERIF_SEED
     random(&mut out, if thorough { 80 } else { 16 }, 1);
     if thorough {
-        random(&mut out, 600, seed.wrapping_add(1000));
+        random(&mut out, 1500, seed.wrapping_add(1000));
     }
     out
 }
